@@ -516,9 +516,17 @@ func (fr *frame) concreteIndex(v Value, t types.Type, n int, site ssa.Instructio
 	case Sym:
 		w, signed := width(t)
 		var inRange *Term
-		if signed {
+		switch {
+		case w < 64 && uint64(n) > mask(w)>>b2u(signed):
+			// the index type cannot exceed the length
+			if signed {
+				inRange = mkBin(OSLe, mkConst(0, w), x.t)
+			} else {
+				inRange = tTrue
+			}
+		case signed:
 			inRange = mkAnd(mkBin(OSLe, mkConst(0, w), x.t), mkBin(OSLt, x.t, mkConst(uint64(n), w)))
-		} else {
+		default:
 			inRange = mkBin(OULt, x.t, mkConst(uint64(n), w))
 		}
 		if !in.decide(inRange) {
